@@ -117,6 +117,7 @@ type Exec struct {
 	written       map[string]bool // heap keys written on objects the caller can see
 	inlineStack   []*inlineFrame
 	elemCells     map[*Term]bool // cells standing for &s[i] (read-only views)
+	escaped       map[*types.Var]bool // locals whose address went to an opaque pointer: unknown after every call
 	addrTakenCache map[*types.Var]bool
 	inlineSite    token.Pos // position of the outermost inlined call (scope of sink clauses)
 	factSink      *State // receives type-invariant facts discovered while evaluating contract expressions
